@@ -20,7 +20,7 @@ def budget(tier):
 
 def gen(rng, index, tier):
     nmax = 7 if tier == "quick" else 10
-    raw, meta = lib.gen_dataset(rng, nmax=nmax, mmax=5 if tier == "quick" else 7, big=0.02)
+    raw, meta = lib.gen_dataset(rng, nmax=nmax, mmax=5 if tier == "quick" else 7, big=0.02, big_nmax=130)
     elems = lib.dataset_elems(raw)
     n = len(elems)
     sch = lib.gen_scheme(rng, max_pairs=len(raw) * n * (n - 1) // 2 + 1)
